@@ -26,7 +26,10 @@ RULE = ('The full finite grid is enumerated in both tiers: function {open_input,
         'backend\'s, present in every constructor and get_devices call; virtual/callback/autoreset forwarded; native IOPort '
         'used when present, else mido.ports.IOPort over the module\'s Input and Output; listings equal the reference filter; '
         'set_backend rebinds the top-level functions and mido.backend. Non-trivial = two sources disagree so that '
-        'precedence decides; distinct by configuration tuple (by construction).')
+        'precedence decides; distinct by configuration tuple (by construction).'
+        ' Later additions: histories of set_backend on the same module, environment changed between two calls on'
+        ' one Backend object, looking at a backend (repr, loaded) must not import it, Backend subclasses with'
+        ' further open_*/get_* functions, open_ioport(virtual=True) with environment defaults.')
 ASSUMPTIONS = ['cells the statement leaves undefined are not generated: empty-string environment values, api= together '
                'with a /API name, MIDO_BACKEND with use_environ=False']
 
